@@ -680,3 +680,164 @@ def why_not(x, cs, lo, hi, fst, lst, one=None):
     if one is not None and x[1] < 2 and not x[5] <= one:
         out.append("the whole value can be %r" % "".join(sorted(x[5] - one)))
     return "; ".join(out)
+
+
+# ------------------------------------------------------------------ constructive search: make a cut land on a chosen character
+
+def flatten(tm, variables, base_path, depth=0):
+    """the template as a list of pieces, each (owner, options) where owner is the absolute path of the fake node the piece
+    belongs to (None for literal text) and options is a list of alternatives, each a list of slots.  Only cat / literals /
+    numbers / fake / var; returns None for anything else."""
+    if depth > 20:
+        return None
+    if isinstance(tm, str):
+        return [(None, [[("words", [tm])]])]
+    if tm is None:
+        return []
+    if isinstance(tm, bool):
+        return None
+    if isinstance(tm, int):
+        return [(None, [[("words", [str(tm)])]])]
+    if is_op(tm):
+        op = next(iter(tm)); a = tm[op]
+        al = a if isinstance(a, list) else [a]
+        if op == "fake":
+            lang = lang_of(a)
+            if lang is None:
+                return None
+            return [(base_path, lang)]
+        if op == "var":
+            if not isinstance(a, str):
+                return None
+            if a not in variables:
+                return []
+            return flatten(variables[a], {}, ("variables", a), depth + 1)
+        if op == "cat":
+            out = []
+            for i, x in enumerate(al):
+                sub = flatten(x, variables, base_path + (op, i) if isinstance(a, list) else base_path + (op,), depth + 1)
+                if sub is None:
+                    return None
+                out += sub
+            return out
+    return None
+
+
+def slot_lengths(sl):
+    if sl[0] == "words":
+        return {len(w) for w in sl[1]}
+    if sl[0] == "chars":
+        return set(range(sl[2], sl[3] + 1))
+    return set(range(len(str(sl[1])), len(str(sl[2])) + 1))
+
+
+def slot_pick_len(sl, n, rng, want=None):
+    """a value of the slot of length n (want = (offset, char): with that character at that offset)"""
+    if sl[0] == "words":
+        ws = [w for w in sl[1] if len(w) == n and (want is None or (want[0] < len(w) and w[want[0]] == want[1]))]
+        return rng.choice(ws) if ws else None
+    if sl[0] == "chars":
+        if want is not None:
+            if want[1] not in sl[1]:
+                return None
+            s = [rng.choice(sl[1]) for _ in range(n)]
+            s[want[0]] = want[1]
+            return "".join(s)
+        return "".join(rng.choice(sl[1]) for _ in range(n))
+    if want is not None:
+        return None
+    lo, hi = max(sl[1], 10 ** (n - 1) if n > 1 else 0), min(sl[2], 10 ** n - 1)
+    return str(rng.randint(lo, hi)) if lo <= hi else None
+
+
+def cut_search(scn, jpath, tm, chars, rng, base, max_alts=24):
+    """for a leaf substr(t, 0, n) with t made of cat / literals / fake / var: draws in which the last character kept by the
+    cut (position n-1, the value being at least n long) is one of `chars`.  Returns {char: draw}."""
+    if not (is_op(tm) and next(iter(tm)) == "substr"):
+        return {}
+    a = tm["substr"]
+    if not (isinstance(a, list) and len(a) == 3 and a[1] == 0 and isinstance(a[2], int) and a[2] > 0):
+        return {}
+    n = a[2]
+    pieces = flatten(a[0], scn.get("variables", {}), ("schema",) + jpath + ("substr", 0))
+    if not pieces:
+        return {}
+    import itertools
+    found = {}
+    combos = itertools.islice(itertools.product(*[range(len(opts)) for _, opts in pieces]), max_alts)
+    for combo in combos:
+        slots = []            # (piece index, slot)
+        for pi, ((owner, opts), ci) in enumerate(zip(pieces, combo)):
+            for sl in opts[ci]:
+                slots.append((pi, sl))
+        # an owner used twice (a variable read twice) must take the same value: give up on those
+        owners = [o for o, _ in pieces if o is not None]
+        if len(owners) != len(set(owners)):
+            return found
+        L = [slot_lengths(sl) for _, sl in slots]
+        reach = [{0}]
+        for ls in L:
+            reach.append({r + x for r in reach[-1] for x in ls if r + x <= n + 60})
+        # the total must be >= n: suffix maxima
+        sufmax = [0] * (len(slots) + 1)
+        for j in range(len(slots) - 1, -1, -1):
+            sufmax[j] = sufmax[j + 1] + max(L[j])
+        for c in chars:
+            if c in found:
+                continue
+            done = False
+            for j, (pi, sl) in enumerate(slots):
+                if done:
+                    break
+                for ln in sorted(L[j], reverse=True):
+                    if done:
+                        break
+                    for off in range(ln):
+                        start = n - 1 - off
+                        if start < 0 or start not in reach[j]:
+                            continue
+                        if start + ln + sufmax[j + 1] < n:
+                            continue
+                        v = slot_pick_len(sl, ln, rng, (off, c))
+                        if v is None:
+                            continue
+                        # choose lengths for the slots before j that sum to `start` (backwards through reach)
+                        vals = [None] * len(slots)
+                        vals[j] = v
+                        need = start
+                        ok = True
+                        for k in range(j - 1, -1, -1):
+                            cand = [x for x in L[k] if need - x in reach[k]]
+                            if not cand:
+                                ok = False; break
+                            x = rng.choice(cand)
+                            vals[k] = slot_pick_len(slots[k][1], x, rng)
+                            if vals[k] is None:
+                                ok = False; break
+                            need -= x
+                        if not ok or need != 0:
+                            continue
+                        for k in range(j + 1, len(slots)):
+                            x = max(L[k])
+                            vals[k] = slot_pick_len(slots[k][1], x, rng)
+                            if vals[k] is None:
+                                ok = False; break
+                        if not ok:
+                            continue
+                        d = dict(base)
+                        per_owner = {}
+                        for (pi, _), val in zip(slots, vals):
+                            o = pieces[pi][0]
+                            if o is not None:
+                                per_owner[o] = per_owner.get(o, "") + val
+                        for o, val in per_owner.items():
+                            d[o] = int(val) if isinstance(base.get(o), int) and not isinstance(base.get(o), bool) else val
+                        try:
+                            s = leaf_value(scn, jpath, tm, d)
+                        except Opaque:
+                            continue
+                        if isinstance(s, str) and len(s) == n and s[-1] == c:
+                            found[c] = d
+                            done = True
+                            break
+    return found
